@@ -41,6 +41,37 @@ theorem memmove_s_C06 (dest dmax src slen : Nat) (st : St)
     congr 1; omega
   · rw [hm.data, if_neg ha]
 
+/-- **memcpy16_s** (`dmax` in bytes, `slen` in 16-bit elements), valid arguments, non-overlapping element
+ranges: EOK and the exact copy of `slen` elements. -/
+theorem memcpy16_s_C06 (dest dmax src slen : Nat) (st : St)
+    (hd : dest ≠ 0) (hs : src ≠ 0) (hpos : 0 < slen) (hle : slen * 2 ≤ dmax) (hmax : dmax ≤ RSIZE_MAX_MEM)
+    (hw : RW st dest slen) (hr : RD st src slen)
+    (ha1 : src * 2 + slen * 2 < U64) (ha2 : dest * 2 + dmax / 2 * 2 < U64)
+    (hno : ¬ ((src < dest ∧ dest < src + slen) ∨ (dest < src ∧ src < dest + dmax / 2))) :
+    ∃ st', exec (memcpy16_s dest dmax src slen none none) st = .ok (EOK, st') ∧
+      Moved st st' dest src slen :=
+  memcpy16_s_ok dest dmax src slen st hd hs hpos hle hmax hw hr ha1 ha2 hno
+
+/-- **memcpy32_s** (`dmax` in bytes, `slen` in 32-bit elements), valid arguments, non-overlapping. -/
+theorem memcpy32_s_C06 (dest dmax src slen : Nat) (st : St)
+    (hd : dest ≠ 0) (hs : src ≠ 0) (hpos : 0 < slen) (hle : slen * 4 ≤ dmax) (hmax : dmax ≤ RSIZE_MAX_MEM)
+    (hw : RW st dest slen) (hr : RD st src slen)
+    (ha1 : src * 4 + slen * 4 < U64) (ha2 : dest * 4 + dmax / 4 * 4 < U64)
+    (hno : ¬ ((src < dest ∧ dest < src + slen) ∨ (dest < src ∧ src < dest + dmax / 4))) :
+    ∃ st', exec (memcpy32_s dest dmax src slen none none) st = .ok (EOK, st') ∧
+      Moved st st' dest src slen :=
+  memcpy32_s_ok dest dmax src slen st hd hs hpos hle hmax hw hr ha1 ha2 hno
+
+/-- **wmemcpy_s** (`dlen`, `count` in `wchar_t` elements), valid arguments, non-overlapping. -/
+theorem wmemcpy_s_C06 (dest dlen src count : Nat) (st : St)
+    (hd : dest ≠ 0) (hs : src ≠ 0) (hpos : 0 < count) (hle : count ≤ dlen) (hmax : dlen * 4 ≤ RSIZE_MAX_MEM)
+    (hw : RW st dest count) (hr : RD st src count)
+    (ha1 : src * 4 + count * 4 < U64) (ha2 : dest * 4 + dlen * 4 < U64)
+    (hno : ¬ ((src < dest ∧ dest < src + count) ∨ (dest < src ∧ src < dest + dlen))) :
+    ∃ st', exec (wmemcpy_s dest dlen src count none none) st = .ok (EOK, st') ∧
+      Moved st st' dest src count :=
+  wmemcpy_s_ok dest dlen src count st hd hs hpos hle hmax hw hr ha1 ha2 hno
+
 /-- everything mapped, readable and writable; cell `a` holds `a % 251` -/
 def exSt : St := { data := fun a => a % 251, mapped := fun _ => true, rd := fun _ => true, wr := fun _ => true }
 
